@@ -157,7 +157,9 @@ def run_case(case):
     dyn_p = _dyn(g, g["sys_b"], pt)
     log_b = list(probe_b.log)
     st, sp = np.array(dyn_t.states), np.array(dyn_p.states)
-    bound = C_BOUND * g["epsrel"] * g["scale"]
+    from vp.lib import pt_growth
+    growth = pt_growth(nsteps)
+    bound = C_BOUND * g["epsrel"] * g["scale"] * growth
     worst = 0.0
     if st.shape != sp.shape or st.shape[0] != nsteps + 1:
         violations.append({"what": f"lengths differ: tempo {st.shape[0]}, "
@@ -263,7 +265,7 @@ def run_case(case):
             a = np.array(_tempo(g, g["sys_a"], par).states)
             b = np.array(_dyn(g, g["sys_b"], _pt(g, par)).states)
             e = float(np.abs(a - b).max())
-            bnd = C_BOUND * eps * g["scale"]
+            bnd = C_BOUND * eps * g["scale"] * growth
             worst = max(worst, e / bnd)
             monitors["ladder_rungs"] = monitors.get("ladder_rungs", 0) + 1
             if e > bnd:
